@@ -60,6 +60,47 @@ func realDomains(hostname string, aliases []string, pt bool, addr string, listen
 // selectVHostRef: Envoy's documented domain search order - exact, longest suffix wildcard `*x`,
 // longest prefix wildcard `x*`, `*`; host comparison is case-insensitive; a wildcard does not match
 // the empty string.
+// stripPort: ignore_port_in_host_matching - "host:port" / "[v6]:port" without the port.
+func stripPort(a string) string {
+	i := strings.LastIndex(a, ":")
+	if i < 0 || i == len(a)-1 {
+		return a
+	}
+	for _, c := range a[i+1:] {
+		if c < '0' || c > '9' {
+			return a
+		}
+	}
+	if strings.Contains(a[:i], ":") && !strings.HasSuffix(a[:i], "]") {
+		return a // a bare IPv6 literal
+	}
+	return a[:i]
+}
+
+// showVHostTable: `ip=<IgnorePortInHostMatching>` and, sorted, name[domains]<requireTls>#<routes> per virtual host.
+func showVHostTable(rc *route.RouteConfiguration) string {
+	if rc == nil {
+		return "no-route-configuration"
+	}
+	es := make([]string, len(rc.VirtualHosts))
+	for i, v := range rc.VirtualHosts {
+		es[i] = wire.Enc(v.Name) + "[" + wire.EncList(v.Domains) + "]" + wire.B(v.RequireTls == route.VirtualHost_ALL) + "#" + strconv.Itoa(len(v.Routes))
+	}
+	sort.Strings(es)
+	return "ip=" + wire.B(rc.IgnorePortInHostMatching) + " " + strings.Join(es, " ")
+}
+
+// selectVHostConf: virtual-host selection of a whole route configuration (port stripped when it says so).
+func selectVHostConf(rc *route.RouteConfiguration, authority string) *route.VirtualHost {
+	if rc == nil {
+		return nil
+	}
+	if rc.IgnorePortInHostMatching {
+		authority = stripPort(authority)
+	}
+	return selectVHostRef(rc.VirtualHosts, authority)
+}
+
 func selectVHostRef(vhs []*route.VirtualHost, authority string) *route.VirtualHost {
 	h := asciiLower(authority)
 	for _, v := range vhs {
